@@ -214,7 +214,7 @@ func c12Shapes(r *ev.Run) []gen.MsgSpec {
 		add(s, rng)
 	}
 	// random extra shapes
-	extra := r.Pick(6, 60)
+	extra := r.Pick(6, 300)
 	for i := 0; i < extra; i++ {
 		rng := r.Rng("c12rand", i)
 		s := genSpec(rng, fmt.Sprintf("c12-r%d", i), gen.Pick(rng, encs), rng.Intn(4), rng.Intn(3), rng.Intn(3))
